@@ -66,6 +66,19 @@ Section Oracles.
   Theorem C09_read_rejects : forall e, header_from_bytes e = Err ValueError ->
     read_envelope package json_parse decompress e = Err ValueError.
   Proof. exact (read_rejects package json_parse decompress). Qed.
+
+  (* a package object that was encoded before and has changed since is still a package: in every history of
+     encodings and changes on one object, each envelope decodes to the contents the object had at that moment,
+     and is the envelope a fresh object with those contents would give *)
+  Theorem C09_history_roundtrip : forall s p q e,
+    In (q, Ok e) (run_steps package json_payload compress utf8_ok p s) ->
+    read_envelope package json_parse decompress e = Ok q.
+  Proof. exact (history_roundtrip package json_payload json_parse compress decompress utf8_ok zstd_inverse json_inverse). Qed.
+  Theorem C09_history_fresh : forall s p q r,
+    In (q, r) (run_steps package json_payload compress utf8_ok p s) ->
+    exists c, r = make_envelope package json_payload compress q c \/
+              r = make_envelope_str package json_payload compress utf8_ok q c.
+  Proof. exact (history_fresh package json_payload compress utf8_ok). Qed.
 End Oracles.
 
 Example C09_example : header_from_bytes (MAGIC ++ [63; 65; 1; 2; 3]) = Ok {| hformat := JSON; hzstd := true |}.
@@ -76,3 +89,4 @@ Print Assumptions C09_header_rejects.
 Print Assumptions C09_header_sweep.
 Print Assumptions C09_envelope_roundtrip.
 Print Assumptions C09_str_roundtrip.
+Print Assumptions C09_history_roundtrip.
